@@ -131,7 +131,9 @@ pub fn is_fin(s: &str) -> bool {
     flags(s).contains('F')
 }
 pub fn is_bad(s: &str) -> bool {
-    flags(s).contains('B')
+    // (whatever `is_failed` covers: failed, upstream-failed or aborted)
+    let f = flags(s);
+    f.contains('B') || f.contains('U') || f.contains('A')
 }
 pub fn is_upfail(s: &str) -> bool {
     flags(s).contains('U')
